@@ -143,12 +143,12 @@ static void ref1(Out& ref, i128 stdv, i128 exact)
 enum OpId {
     OP_CAST, OP_FLOOR, OP_CEIL, OP_ROUND, OP_RND4, OP_TP_CAST, OP_TP_RND4,
     OP_CONV, OP_TP_CONV, OP_PLUS, OP_MINUS, OP_DIV, OP_MOD, OP_CMP, OP_TP_CMP, OP_CTYPE, OP_PERIOD, OP_UNARY,
-    OP_TP_UNARY, OP_COMPOUND, OP_TP_COMPOUND, OP_ABS, OP_LIMITS, OP_FCAST_IF, OP_FCONV_IF, OP_SCALAR, OP_TP_ARITH, OP_CASTW, OP_NONE
+    OP_TP_UNARY, OP_COMPOUND, OP_TP_COMPOUND, OP_ABS, OP_LIMITS, OP_FCAST_IF, OP_FCONV_IF, OP_SCALAR, OP_TP_ARITH, OP_CASTW, OP_D_CAST, OP_D_RND4, OP_D_ARITH, OP_NONE
 };
 static OpId op_id(std::string const& s)
 {
     static char const* const names[] = {"cast", "floor", "ceil", "round", "rnd4", "tp_cast", "tp_rnd4", "conv", "tp_conv", "plus", "minus", "div", "mod", "cmp", "tp_cmp", "ctype", "period",
-        "unary", "tp_unary", "compound", "tp_compound", "abs", "limits", "fcast_if", "fconv_if", "scalar", "tp_arith", "castw"};
+        "unary", "tp_unary", "compound", "tp_compound", "abs", "limits", "fcast_if", "fconv_if", "scalar", "tp_arith", "castw", "d_cast", "d_rnd4", "d_arith"};
     for (int k = 0; k < OP_NONE; ++k) {
         if (s == names[k]) { return static_cast<OpId>(k); }
     }
@@ -442,6 +442,26 @@ struct Ops {
             return true;
         }
         case OP_PERIOD: {
+            // constant evaluation takes the same path: for the core pairs the four conversions, the arithmetic and the
+            // comparisons of a few small counts are evaluated by the compiler and compared with std::chrono there
+            if constexpr (I < CORE && J < CORE) {
+                constexpr auto ct = [](long long v) {
+                    auto const c = static_cast<R1>(v);
+                    auto const k = static_cast<R2>(v / 3 + 1);
+                    return ec::duration_cast<E2>(E1{c}).count() == sc::duration_cast<S2>(S1{c}).count()
+                        && ec::floor<E2>(E1{c}).count() == sc::floor<S2>(S1{c}).count()
+                        && ec::ceil<E2>(E1{c}).count() == sc::ceil<S2>(S1{c}).count()
+                        && ec::round<E2>(E1{c}).count() == sc::round<S2>(S1{c}).count()
+                        && (E1{c} + E2{k}).count() == (S1{c} + S2{k}).count()
+                        && (E1{c} - E2{k}).count() == (S1{c} - S2{k}).count()
+                        && (E1{c} % E2{k}).count() == (S1{c} % S2{k}).count()
+                        && (E1{c} / E2{k}) == (S1{c} / S2{k})
+                        && (E1{c} < E2{k}) == (S1{c} < S2{k}) && (E1{c} == E2{k}) == (S1{c} == S2{k})
+                        && ec::abs(E1{c}).count() == sc::abs(S1{c}).count()
+                        && (E1{c} * k).count() == (S1{c} * k).count();
+                };
+                static_assert(ct(7) && ct(-7) && ct(1500) && ct(-1500) && ct(90) && ct(-30));
+            }
             impl.tok("ok").num(E1::period::num).num(E1::period::den);
             ref.tok("ok").num(S1::period::num).num(S1::period::den);
             return true;
@@ -546,6 +566,55 @@ struct Ops {
                 SF s = S1{c};
                 impl.tok("ok").tok(dbits(e.count()));
                 ref.tok("ok").tok(dbits(s.count()));
+                return true;
+            }
+        }
+        if constexpr (RC == 0 && I < CORE && J < CORE) {
+            // floating-point SOURCE representation; the double arguments arrive as their 64-bit patterns
+            using ED1 = ec::duration<double, EP1>;
+            using ED2 = ec::duration<double, EP2>;
+            using SD1 = sc::duration<double, SP1>;
+            using SD2 = sc::duration<double, SP2>;
+            auto rd = [&in]() {
+                std::uint64_t u = in.unum();
+                double x    = 0;
+                std::memcpy(&x, &u, sizeof x);
+                return x;
+            };
+            if (op == OP_D_CAST) {
+                double x = rd();
+                impl.tok("ok").tok(dbits(ec::duration_cast<ED2>(ED1{x}).count()));
+                ref.tok("ok").tok(dbits(sc::duration_cast<SD2>(SD1{x}).count()));
+                return true;
+            }
+            if (op == OP_D_RND4) {
+                double x = rd();
+                impl.tok("ok")
+                    .num(ec::duration_cast<E2>(ED1{x}).count())
+                    .num(ec::floor<E2>(ED1{x}).count())
+                    .num(ec::ceil<E2>(ED1{x}).count())
+                    .num(ec::round<E2>(ED1{x}).count());
+                ref.tok("ok")
+                    .num(sc::duration_cast<S2>(SD1{x}).count())
+                    .num(sc::floor<S2>(SD1{x}).count())
+                    .num(sc::ceil<S2>(SD1{x}).count())
+                    .num(sc::round<S2>(SD1{x}).count());
+                return true;
+            }
+            if (op == OP_D_ARITH) {
+                double x = rd();
+                double y = rd();
+                {
+                    ED1 a{x};
+                    ED2 b{y};
+                    static_assert(std::is_same_v<decltype(a / b), double>);
+                    impl.tok("ok").tok(dbits((a + b).count())).tok(dbits((a - b).count())).tok(dbits(a / b));
+                    impl.b(a == b).b(a != b).b(a < b).b(a <= b).b(a > b).b(a >= b);
+                }
+                SD1 a{x};
+                SD2 b{y};
+                ref.tok("ok").tok(dbits((a + b).count())).tok(dbits((a - b).count())).tok(dbits(a / b));
+                ref.b(a == b).b(a != b).b(a < b).b(a <= b).b(a > b).b(a >= b);
                 return true;
             }
         }
@@ -667,6 +736,25 @@ bool vh::run_case(std::string const& op, Toks& in, Out& impl, Out& ref)
         typedef_row<ec::weeks, sc::weeks, 22>(impl, ref);
         typedef_row<ec::months, sc::months, 20>(impl, ref);
         typedef_row<ec::years, sc::years, 17>(impl, ref);
+        return true;
+    }
+    if (op == "sratio") {
+        // ratio<N, D> with operands of either sign: num / den against std::ratio
+        auto row = [&]<long long N, long long D>() {
+            impl.num(etl::ratio<N, D>::num).num(etl::ratio<N, D>::den);
+            ref.num(std::ratio<N, D>::num).num(std::ratio<N, D>::den);
+        };
+        impl.tok("ok");
+        ref.tok("ok");
+        row.template operator()<-1, 2>();
+        row.template operator()<1, -2>();
+        row.template operator()<-4, -6>();
+        row.template operator()<0, 5>();
+        row.template operator()<0, -5>();
+        row.template operator()<-120, 2>();
+        row.template operator()<9223372036854775807LL, -9223372036854775807LL>();
+        row.template operator()<-9223372036854775807LL, 3>();
+        row.template operator()<1001, -30000>();
         return true;
     }
     if (op == "typedef_bits") {
